@@ -112,7 +112,7 @@ DueBefore(t) ==
 ExecutedIsDueSet == Healthy => {TaskIdx(s.trun[i]) : i \in DOMAIN s.trun} = {t \in TIdx : DueBefore(t)}
 \* every background program runs in every healthy cycle
 BackgroundAlways == Healthy => \A j \in PIdx : cfg.programs[j].task = "" => \E i \in DOMAIN s.exec : s.exec[i] = cfg.programs[j].name
-OverrunsMonotone == \A t \in TIdx : s.overruns[t] >= prev.overruns[t]
+OverrunsMonotone == last \notin {"Restart", "PowerCycle"} => \A t \in TIdx : s.overruns[t] >= prev.overruns[t]
 \* a clock jump over n intervals yields one activation and n-1 overruns
 NoReplay == Healthy => \A t \in TIdx : cfg.tasks[t].single = "" /\ cfg.tasks[t].interval > 0 /\ DueBefore(t) =>
                s.overruns[t] - prev.overruns[t] = (prev.now - prev.lastAct[t]) \div cfg.tasks[t].interval - 1
@@ -138,7 +138,7 @@ QCovered == UNION {Span(cfg.bindings[k]) : k \in {k \in DOMAIN cfg.bindings : cf
 OutputLocality == Healthy => \A b \in 0..(cfg.imgLen - 1), k \in 0..7 : <<b, k>> \notin QCovered => GetBit(s.img.Q, b, k) = GetBit(prev.img.Q, b, k)
 
 \* ------------------------------------------------------------------ C08
-FaultLatchMonotone == prev.faulted => s.faulted
+FaultLatchMonotone == prev.faulted /\ last \notin {"Restart", "PowerCycle"} => s.faulted      \* only a restart clears the latch
 \* a refused cycle executes nothing and changes nothing
 RefusedCyclesAreInert == AfterCycle /\ prev.faulted =>
     /\ s.exec = <<>> /\ s.drvLog = <<>>
